@@ -14,8 +14,8 @@
      statement failed when the notified host itself was offline with a notification pending: the host was
      listed as its own "previous IP" and notified twice; former finding c06-duplicate-dhcp-path-offline-offer.)
    History level ([C06_exactly_once]): for every disciplined history from NewSession (units: Parse;Notify /
-   purge / name update through any of the five Update*Name methods / Capture / Release; no DHCP offers), at
-   every unit and for EVERY address x, the notifications about x
+   purge / name update through any of the five Update*Name methods / DHCPv4Update / SetDHCPv4IPOffer /
+   Capture / Release), at every unit and for EVERY address x, the notifications about x
    that the unit emits are exactly the ones the CHANGES of the C04 reference run owe for x ([due],
    Spec/HostTrackingNotif.v: first seen / re-bound / back from offline / registered-but-never-announced /
    learned name changed since the last notification => one notification with the address's next frame; turned
@@ -25,10 +25,12 @@
    announced about other addresses precedes the notification about the frame's own address.
    [C06_contents]: every notification emitted by Notify or purge equals toNotification of the tracked host
    and MAC entry in the state the step leaves behind (address, MAC, online flag, router flag, names).
-   Scope of the history theorem (partial with respect to the property's quantifier): histories with
-   DHCPv4Update / SetDHCPv4IPOffer (which record a DHCP offer on the MAC entry and thereby open the DHCP path of
-   Notify, whose reference needs the MAC entry's lifetime) are covered by the per-step theorems
-   ([C06_notify_dhcp_path_once]) and by the correspondence run only. *)
+   DHCP: DHCPv4Update is a sighting without frame: what it changes (address created / re-bound / back online,
+   learned DHCP name changed, other IPv4 addresses turned offline) is owed and delivered later; a frame without host
+   event classified DHCPv4 delivers, through the offer recorded for its source MAC, what is owed to the offered
+   address (DHCP path of Notify). The reference remembers the offer exactly as long as the MAC owns an address
+   (the link invariant [J] carries: the offer the code would read = the offer the reference remembers; pending
+   notification = owed; host names = reference names). *)
 From PV Require Import Base.Prelude Model.Tables Model.TablesKnown Spec.HostTrackingInv Spec.HostTracking
   Spec.HostTrackingNotif Proofs.Tables Proofs.TablesRefine Proofs.TablesPred Proofs.TablesNotif Proofs.TablesNotifHist.
 
@@ -159,7 +161,12 @@ Example C06_history_emissions :
     [];                                                         (* a learned name: nothing yet *)
     [(IP4 3232235522, true)];                                   (* ... delivered with the address's next frame *)
     [(IP4 3232235522, false); (IP4 3232235531, false)];         (* ageing (the router was never announced) *)
-    [(IP6 338288524927261089654018896841347694593, true)] ].    (* router's link-local address first seen *)
+    [(IP6 338288524927261089654018896841347694593, true)];      (* router's link-local address first seen *)
+    [(IP4 3232235523, true)];                                   (* a client first seen on .3 *)
+    [];                                                         (* SetDHCPv4IPOffer(.3, new name) *)
+    [];                                                         (* DHCPv4Update(.3, new name): a notification is owed *)
+    [(IP4 3232235523, true)];                                   (* ... delivered once, through the DHCP path *)
+    [] ].                                                       (* repeat traffic afterwards is quiet *)
 Proof. exact ex_units_emissions. Qed.
 Print Assumptions C06_history_emissions.
 
